@@ -95,14 +95,14 @@ Proof. exact status_roundtrip_on. Qed.
 
 (* ---- non-vacuity: a request with reserved, repeated and binary headers; an interceptor that
    inserts a header and replaces the extensions; one that rejects ---- *)
-Definition ex_req : http_request ext_t (list N) :=
+
+Example c12_example_accept :
+  let ex_req : http_request ext_t (list N) :=
   mkHttpReq [80; 79; 83; 84] [47; 115; 47; 109] 20
     [ ([116; 101], [116; 114; 97; 105; 108; 101; 114; 115]); ([120; 45; 97], [49]);
       ([120; 45; 112; 45; 98; 105; 110], [65; 80; 56; 72]); ([120; 45; 97], [50]);
       ([99; 111; 110; 116; 101; 110; 116; 45; 116; 121; 112; 101], [120]) ]
-    (Some 7, None) [1; 2; 3].
-
-Example c12_example_accept :
+    (Some 7, None) [1; 2; 3] in
   let a := mkAction false [(0, ([120; 45; 97], [57])); (1, ([116; 101], [122]))] (Some (None, Some [116])) None in
   exists req', intercepted_call (interceptor_of a) (fun _ => 0) ex_req = ([req'], Val (Wrapped 0)) /\
     hm_get_all (rq_headers req') [120; 45; 97] = [[57]] /\
@@ -112,6 +112,12 @@ Example c12_example_accept :
 Proof. eexists. vm_compute. repeat split; reflexivity. Qed.
 
 Example c12_example_reject_premises :
+  let ex_req : http_request ext_t (list N) :=
+  mkHttpReq [80; 79; 83; 84] [47; 115; 47; 109] 20
+    [ ([116; 101], [116; 114; 97; 105; 108; 101; 114; 115]); ([120; 45; 97], [49]);
+      ([120; 45; 112; 45; 98; 105; 110], [65; 80; 56; 72]); ([120; 45; 97], [50]);
+      ([99; 111; 110; 116; 101; 110; 116; 45; 116; 121; 112; 101], [120]) ]
+    (Some 7, None) [1; 2; 3] in
   let st := mkStatus 16 [110; 111; 32; 37] [] [([120; 45; 119], [104]); ([116; 101], [120])] in
   let a := mkAction false [] None (Some st) in
   interceptor_of a (mkReq (from_headers (rq_headers ex_req)) (rq_ext ex_req) tt) = inr st /\
